@@ -23,8 +23,9 @@
 //     combinations for <= 4 blocks (thorough); quick: ALL combinations for
 //     <= 3 blocks, and for 3*1024+1 all combinations of the three full blocks
 //     with the 1-element tail in {all-true, all-false};
-//   * for each of those sizes the whole sequence ascending and descending
-//     (already sorted / reversed / already partitioned across block borders).
+//   * for each of those sizes four whole-sequence shapes: ascending,
+//     descending (already sorted / reversed / already partitioned across
+//     block borders), all-true-except-the-first, all-false-except-the-last.
 // Each kernel additionally has a few variants (comparator, predicate,
 // operator, in-place); see the V_* tables.
 //
@@ -50,13 +51,37 @@
 // do_all/for_each based kernels (count_if, find_if, accumulate, map_reduce,
 // destroy have no serial cut-off).
 //
-// partition is run in a forked child per (input, T) ("isolated"): on the
-// unchanged tree it walks out of the array for some inputs (ASan abort), and a
-// dead worker would hide the other partition findings and make the case
-// non-exhaustive.  A crash/hang of the child is reported as an ordinary
-// violation `partition:<T>:crash` / `:hang`.  All other kernels share one
-// galois::SharedMemSys per worker process (so per-thread storage is recycled
-// across thousands of calls, as in an application).
+// partition's predicate is range-checked: on the unchanged tree partition()
+// ends, for some inputs, in std::partition(last, first) and walks out of the
+// array.  The predicate throws (before touching the element) as soon as it is
+// applied to an address outside [first,last); the exception leaves
+// partition() through the caller's thread and is reported as the ordinary
+// violation `partition:<T>:predicate-called-outside-range` instead of an ASan
+// abort that would kill the worker and hide the other partition findings.
+// With a plain predicate thread 0 has partitioned all 4096 elements before the
+// second thread has even woken up, i.e. every run is effectively serial.  A
+// third predicate variant therefore makes each thread wait (bounded, 300 us)
+// at its FIRST predicate call until the other threads that can own blocks
+// have made theirs: every thread then holds its first low/high block pair at
+// the same time, which is the situation the leftover logic exists for.  The
+// predicate's value is unchanged; nothing else about the schedule is steered.
+// A fourth variant passes a hand-written random-access iterator whose default
+// constructor does the same bounded wait: partition's per-thread functor
+// default-constructs its block cursors first thing, so all threads reach
+// takeLow()/takeHigh() together and the claims interleave (low, low, high,
+// high instead of low, high, low, high).
+// Because partition's interesting behaviour needs >= 4 blocks and its runs are
+// cheap, partition also gets all 4-block combinations of size 4096 in the
+// quick tier.
+//
+// All kernels share one galois::SharedMemSys per worker process (per-thread
+// storage is recycled across thousands of calls, as in an application).
+// Galois' barriers and termination detection spin without yielding, so a
+// parallel loop gets ~100x slower as soon as more threads are runnable than
+// there are cpus; the 16 worker processes therefore take T "cpu tokens" from
+// a shared pool of <#cpus> tokens around every library call (tokens of dead
+// workers are reclaimed).  This only limits how many runs are in flight; it
+// does not touch the code under test.
 #include "seqx.h"
 
 #include "galois/Galois.h"
@@ -121,10 +146,15 @@ static int pat_key(int pat, int j, int L) {
   }
 }
 
+static const char* WHOLE[] = {
+    "whole sequence ascending (keys i*1024/n)",
+    "whole sequence descending (keys 1023-i*1024/n)",
+    "all true (key 100) except the FIRST element (key 900)",
+    "all false (key 900) except the LAST element (key 100)"};
 struct Input {
   int n    = 0;
-  int kind = 0;          // 0 explicit sequence, 1 block patterns, 2 whole ramp
-  std::vector<int> code; // 0: symbols 0..2; 1: Pat per block; 2: {0 asc|1 desc}
+  int kind = 0;          // 0 explicit sequence, 1 block patterns, 2 whole shape
+  std::vector<int> code; // 0: symbols 0..2; 1: Pat per block; 2: {WHOLE index}
   std::vector<Elem> make() const {
     std::vector<Elem> v(n);
     for (int i = 0; i < n; ++i) {
@@ -135,8 +165,19 @@ struct Input {
         int b = i / BLOCK, L = std::min(BLOCK, n - b * BLOCK);
         k = pat_key(code[b], i - b * BLOCK, L);
       } else
-        k = code[0] == 0 ? (int)((long)i * 1024 / n)
-                         : 1023 - (int)((long)i * 1024 / n);
+        switch (code[0]) {
+        case 0:
+          k = (int)((long)i * 1024 / n);
+          break;
+        case 1:
+          k = 1023 - (int)((long)i * 1024 / n);
+          break;
+        case 2:
+          k = i == 0 ? 900 : 100;
+          break;
+        default:
+          k = i == n - 1 ? 100 : 900;
+        }
       v[i] = Elem{k, i};
     }
     return v;
@@ -159,15 +200,17 @@ struct Input {
       }
       o << "]";
     } else
-      o << (code[0] == 0 ? " whole sequence ascending (keys i*1024/n)"
-                         : " whole sequence descending (keys 1023-i*1024/n)");
+      o << " " << WHOLE[code[0]];
     return o.str();
   }
 };
 
-static std::vector<Input> build_inputs(bool thorough) {
+// level 0: quick; 1: quick + every 4-block combination of size 4096 (used by
+// partition in the quick tier); 2: thorough
+static std::vector<Input> build_inputs(int level) {
   std::vector<Input> out;
-  int maxlen = thorough ? 7 : 6;
+  bool thorough = level == 2;
+  int maxlen    = thorough ? 7 : 6;
   for (int len = 0; len <= maxlen; ++len) {
     long cnt = 1;
     for (int i = 0; i < len; ++i)
@@ -188,11 +231,18 @@ static std::vector<Input> build_inputs(bool thorough) {
   for (int n : BSIZES) {
     int nb = (n + BLOCK - 1) / BLOCK;
     std::vector<int> radix(nb, (int)NPAT);
-    if (nb > 3) {
-      if (!thorough && n == 3 * BLOCK + 1)
+    if (nb > 3 && !thorough) {
+      if (n == 3 * BLOCK + 1)
         radix[3] = 2; // quick: 1-element tail in {all-true, all-false}
-      else if (!thorough)
+      else if (level == 0)
         continue;
+    }
+    for (int d = 0; d < 4; ++d) {
+      Input in;
+      in.n    = n;
+      in.kind = 2;
+      in.code = {d};
+      out.push_back(in);
     }
     long cnt = 1;
     for (int r : radix)
@@ -209,19 +259,13 @@ static std::vector<Input> build_inputs(bool thorough) {
       }
       out.push_back(in);
     }
-    for (int d = 0; d < 2; ++d) {
-      Input in;
-      in.n    = n;
-      in.kind = 2;
-      in.code = {d};
-      out.push_back(in);
-    }
   }
   return out;
 }
-static const std::vector<Input>& inputs(bool thorough) {
-  static std::vector<Input> q = build_inputs(false), t = build_inputs(true);
-  return thorough ? t : q;
+static const std::vector<Input>& inputs(int level) {
+  static std::vector<Input> tab[3] = {build_inputs(0), build_inputs(1),
+                                      build_inputs(2)};
+  return tab[level];
 }
 
 // is `got` a rearrangement of `orig` (orig[i].id == i)?
@@ -325,42 +369,137 @@ static void body_sort(const Input& in, unsigned T, int var) {
 }
 
 static const char* V_PRED[] = {"pred=key<512", "pred=key>=512"};
+static const char* V_PART[] = {
+    "pred=key<512",
+    "pred=key<512 + rendezvous of the threads at their first predicate call",
+    "pred=key<512, iterator type with a rendezvous of the threads at their "
+    "first default-constructed cursor",
+    "pred=key>=512"};
+// bounded rendezvous (see the header comment); mode 0 off, 1 predicate,
+// 2 iterator
+static std::atomic<int> g_epoch{0}, g_arrived{0};
+static int g_expect, g_rv_mode;
+static thread_local int t_epoch = -1;
+static void rendezvous() {
+  int e = g_epoch.load(std::memory_order_relaxed);
+  if (t_epoch == e)
+    return;
+  t_epoch = e;
+  if (g_arrived.fetch_add(1) + 1 >= g_expect)
+    return;
+  double t0 = sx::now();
+  while (g_arrived.load() < g_expect && sx::now() - t0 < 300e-6)
+    galois::substrate::asmPause();
+}
+struct OutOfRange {
+  long off;
+};
+struct PartPred { // range-checked, see the header comment
+  uintptr_t lo, hi;
+  int var;
+  bool operator()(const Elem& e) const {
+    uintptr_t a = (uintptr_t)&e;
+    if (a < lo || a >= hi)
+      throw OutOfRange{((long)a - (long)lo) / (long)sizeof(Elem)};
+    if (g_rv_mode == 1)
+      rendezvous();
+    return var == 3 ? !P(e) : P(e);
+  }
+};
+// a plain random-access iterator over Elem[]; only the default constructor is
+// special
+struct SyncIt {
+  using iterator_category = std::random_access_iterator_tag;
+  using value_type        = Elem;
+  using difference_type   = std::ptrdiff_t;
+  using pointer           = Elem*;
+  using reference         = Elem&;
+  Elem* p;
+  SyncIt() : p(nullptr) {
+    if (g_rv_mode == 2)
+      rendezvous();
+  }
+  explicit SyncIt(Elem* q) : p(q) {}
+  reference operator*() const { return *p; }
+  pointer operator->() const { return p; }
+  reference operator[](difference_type d) const { return p[d]; }
+  SyncIt& operator++() { return ++p, *this; }
+  SyncIt& operator--() { return --p, *this; }
+  SyncIt operator++(int) { return SyncIt(p++); }
+  SyncIt operator--(int) { return SyncIt(p--); }
+  SyncIt& operator+=(difference_type d) { return p += d, *this; }
+  SyncIt& operator-=(difference_type d) { return p -= d, *this; }
+  friend SyncIt operator+(SyncIt a, difference_type d) { return SyncIt(a.p + d); }
+  friend SyncIt operator+(difference_type d, SyncIt a) { return SyncIt(a.p + d); }
+  friend SyncIt operator-(SyncIt a, difference_type d) { return SyncIt(a.p - d); }
+  friend difference_type operator-(SyncIt a, SyncIt b) { return a.p - b.p; }
+  friend bool operator==(SyncIt a, SyncIt b) { return a.p == b.p; }
+  friend bool operator!=(SyncIt a, SyncIt b) { return a.p != b.p; }
+  friend bool operator<(SyncIt a, SyncIt b) { return a.p < b.p; }
+  friend bool operator>(SyncIt a, SyncIt b) { return a.p > b.p; }
+  friend bool operator<=(SyncIt a, SyncIt b) { return a.p <= b.p; }
+  friend bool operator>=(SyncIt a, SyncIt b) { return a.p >= b.p; }
+};
+
 static void body_partition(const Input& in, unsigned T, int var) {
   std::string K = "partition:" + tk(T) + ":";
   runtime(T);
   if (in.n > BLOCK && T >= 2)
     sx::mark_nontrivial();
   std::vector<Elem> orig = in.make(), v = orig;
-  auto pred = [var](const Elem& e) { return var == 0 ? P(e) : !P(e); };
-  auto ret  = pstl::partition(v.begin(), v.end(), pred);
-  long n = in.n, r = ret - v.begin();
+  PartPred pred{(uintptr_t)v.data(), (uintptr_t)(v.data() + v.size()), var};
+  long n = in.n, r;
+  g_rv_mode = var == 1 ? 1 : var == 2 ? 2 : 0;
+  if (g_rv_mode == 1) {
+    // threads that own a block when each claims one low and one high block
+    int chunks = in.n > BLOCK ? (in.n + BLOCK - 1) / BLOCK : 1;
+    g_expect   = std::min<int>(T, (chunks + 1) / 2);
+  } else
+    g_expect = in.n > BLOCK ? T : 1; // on_each runs the functor on all T
+  g_arrived.store(0);
+  g_epoch.fetch_add(1);
+  try {
+    if (var == 2)
+      r = pstl::partition(SyncIt(v.data()), SyncIt(v.data() + n), pred).p -
+          v.data();
+    else
+      r = pstl::partition(v.begin(), v.end(), pred) - v.begin();
+  } catch (const OutOfRange& o) {
+    g_rv_mode = 0;
+    fail(K + "predicate-called-outside-range",
+         "T=%u %s: partition applied the predicate to first%+ld, outside "
+         "[first,last) (n=%ld)",
+         T, V_PART[var], o.off, n);
+  }
+  g_rv_mode = 0;
   if (r < 0 || r > n)
     fail(K + "point-out-of-range",
          "T=%u %s: returned first%+ld, outside [first,last] (n=%ld)", T,
-         V_PRED[var], r, n);
+         V_PART[var], r, n);
   std::string why;
   if (!is_permutation_of(v, orig, why))
-    fail(K + "not-a-permutation", "T=%u %s: %s", T, V_PRED[var], why.c_str());
-  long ntrue = std::count_if(orig.begin(), orig.end(), pred);
-  long ff    = std::find_if_not(v.begin(), v.end(), pred) - v.begin();
+    fail(K + "not-a-permutation", "T=%u %s: %s", T, V_PART[var], why.c_str());
+  auto sat   = [var](const Elem& e) { return var == 3 ? !P(e) : P(e); };
+  long ntrue = std::count_if(orig.begin(), orig.end(), sat);
+  long ff    = std::find_if_not(v.begin(), v.end(), sat) - v.begin();
   for (long i = ff; i < n; ++i)
-    if (pred(v[i]))
+    if (sat(v[i]))
       fail(K + "range-not-partitioned",
            "T=%u %s: returned first+%ld (%ld elements satisfy); position %ld "
            "does not satisfy the predicate but the later position %ld does",
-           T, V_PRED[var], r, ntrue, ff, i);
+           T, V_PART[var], r, ntrue, ff, i);
   if (r != ntrue) {
     if (r > ntrue)
       fail(K + "wrong-partition-point",
            "T=%u %s: returned first+%ld but only %ld elements satisfy: "
            "[first,ret) contains the non-satisfying position %ld (the range "
            "itself is partitioned at %ld)",
-           T, V_PRED[var], r, ntrue, ntrue, ntrue);
+           T, V_PART[var], r, ntrue, ntrue, ntrue);
     fail(K + "wrong-partition-point",
          "T=%u %s: returned first+%ld but %ld elements satisfy: [ret,last) "
          "contains the satisfying position %ld (the range itself is "
          "partitioned at %ld)",
-         T, V_PRED[var], r, ntrue, r, ntrue);
+         T, V_PART[var], r, ntrue, r, ntrue);
   }
   sx::outcome(sx::mix(hash_keys(v), (uint64_t)r));
 }
@@ -380,8 +519,8 @@ static void body_count_if(const Input& in, unsigned T, int var) {
   sx::outcome(got);
 }
 
-static const char* V_FIND[] = {"pred=key<512", "pred=key>=512", "pred=id==0",
-                               "pred=id==n-1", "pred=id==n/2"};
+static const char* V_FIND[] = {"pred=key<512", "pred=key>=512",
+                               "pred=id==n-1", "pred=id==0", "pred=id==n/2"};
 static void body_find_if(const Input& in, unsigned T, int var) {
   std::string K = "find_if:" + tk(T) + ":";
   runtime(T);
@@ -396,9 +535,9 @@ static void body_find_if(const Input& in, unsigned T, int var) {
     case 1:
       return !P(e);
     case 2:
-      return e.id == 0;
-    case 3:
       return e.id == n - 1;
+    case 3:
+      return e.id == 0;
     default:
       return e.id == n / 2;
     }
@@ -586,112 +725,96 @@ static void body_destroy(int n, unsigned T, int var) {
 }
 
 // ---------------------------------------------------------------------------
-// isolation: run one body in a forked child with its own Galois runtime
+// cpu tokens (see the header comment)
 // ---------------------------------------------------------------------------
-struct IsoResult {
-  volatile int done, failed, nontrivial;
-  volatile uint64_t outcome;
-  char key[160];
-  char msg[1200];
+static const int HANG_SECONDS = 300;
+struct Tokens {
+  int n;
+  std::atomic<int> owner[256]; // pid or 0
+  // violation keys already handed to the driver (see report_to_driver)
+  std::atomic<uint64_t> key[128];
+  std::atomic<int> keycount[128];
 };
-static const int HANG_SECONDS = 120;
+static Tokens* g_tok;
 
-static std::string crash_summary(int fd) {
-  std::string text, out;
-  char buf[4096];
-  lseek(fd, 0, SEEK_SET);
-  ssize_t k;
-  while ((k = read(fd, buf, sizeof buf)) > 0 && text.size() < (1u << 20))
-    text.append(buf, k);
-  std::istringstream is(text);
-  std::string line;
-  bool frame = false;
-  while (std::getline(is, line)) {
-    bool take = line.find("ERROR: AddressSanitizer") != std::string::npos ||
-                line.find("SUMMARY:") != std::string::npos ||
-                line.find("Assertion") != std::string::npos ||
-                line.find("terminate called") != std::string::npos ||
-                line.find("what():") != std::string::npos;
-    if (!take && !frame && line.find("ParallelSTL.h") != std::string::npos) {
-      take  = true; // innermost frame inside the header under test
-      frame = true;
-    }
-    if (take && out.size() < 700)
-      out += line.substr(0, 300) + " | ";
+static void tokens_init() {
+  g_tok = (Tokens*)mmap(nullptr, sizeof(Tokens), PROT_READ | PROT_WRITE,
+                        MAP_SHARED | MAP_ANONYMOUS, -1, 0);
+  if (g_tok == MAP_FAILED) {
+    g_tok = nullptr;
+    return;
   }
-  return out;
+  cpu_set_t set;
+  int n = 16;
+  if (sched_getaffinity(0, sizeof set, &set) == 0)
+    n = CPU_COUNT(&set);
+  if (const char* e = getenv("C16_TOKENS"))
+    n = atoi(e);
+  g_tok->n = std::min(256, std::max<int>(MAXT, n));
 }
 
-static void isolated(const std::string& comp, unsigned T,
-                     const std::function<void()>& body) {
-  static IsoResult* res = (IsoResult*)mmap(
-      nullptr, sizeof(IsoResult), PROT_READ | PROT_WRITE,
-      MAP_SHARED | MAP_ANONYMOUS, -1, 0);
-  memset((void*)res, 0, sizeof *res);
-  int efd = memfd_create("c16-stderr", 0);
-  fflush(stdout);
-  fflush(stderr);
-  pid_t p = fork();
-  if (p == 0) {
-    if (efd >= 0) {
-      dup2(efd, 2);
-      dup2(efd, 1);
+struct TokenHold {
+  int held[MAXT];
+  unsigned got = 0;
+  explicit TokenHold(unsigned T) {
+    if (!g_tok)
+      return;
+    int me = getpid();
+    for (unsigned spins = 1;; ++spins) {
+      for (int i = 0; i < g_tok->n && got < T; ++i) {
+        int exp = 0;
+        if (g_tok->owner[i].load(std::memory_order_relaxed) == 0 &&
+            g_tok->owner[i].compare_exchange_strong(exp, me))
+          held[got++] = i;
+      }
+      if (got == T)
+        return;
+      release();
+      if (spins % 512 == 0) // reclaim the tokens of workers that died
+        for (int i = 0; i < g_tok->n; ++i) {
+          int o = g_tok->owner[i].load();
+          if (o != 0 && kill(o, 0) != 0 && errno == ESRCH)
+            g_tok->owner[i].compare_exchange_strong(o, 0);
+        }
+      usleep(40 + (me * 7 + spins * 13) % 80);
     }
-    alarm(HANG_SECONDS);
-    sx::info() = sx::RunInfo();
-    try {
-      body();
-    } catch (const sx::Fail& f) {
-      res->failed = 1;
-      snprintf(res->key, sizeof res->key, "%s", f.key.c_str());
-      snprintf(res->msg, sizeof res->msg, "%s", f.msg.c_str());
-    }
-    res->nontrivial = sx::info().nontrivial;
-    res->outcome    = sx::info().outcome;
-    res->done       = 1;
-    _exit(0);
   }
-  int status = 0;
-  while (waitpid(p, &status, 0) < 0 && errno == EINTR) {
+  void release() {
+    for (unsigned j = 0; j < got; ++j)
+      g_tok->owner[held[j]].store(0);
+    got = 0;
   }
-  std::string summary;
-  bool ok = WIFEXITED(status) && WEXITSTATUS(status) == 0 && res->done;
-  if (!ok && efd >= 0)
-    summary = crash_summary(efd);
-  if (efd >= 0)
-    close(efd);
-  if (!ok) {
-    if (WIFSIGNALED(status) && WTERMSIG(status) == SIGALRM)
-      fail(comp + ":" + tk(T) + ":hang", "T=%u: no result after %d s", T,
-           HANG_SECONDS);
-    fail(comp + ":" + tk(T) + ":crash", "T=%u: process died (wait status %d) %s",
-         T, status, summary.c_str());
+  ~TokenHold() {
+    if (g_tok)
+      release();
   }
-  if (res->nontrivial)
-    sx::mark_nontrivial();
-  sx::outcome(res->outcome);
-  if (res->failed)
-    throw sx::Fail{std::string(res->key), std::string(res->msg)};
-}
+};
 
 // ---------------------------------------------------------------------------
 // cases
 // ---------------------------------------------------------------------------
 struct Kernel {
   const char* name;
-  int nvar;
+  int nvar_quick, nvar_thorough; // quick uses the first nvar_quick variants
+  bool blocks4_in_quick;         // quick also gets all 4-block combinations
   const char* const* varnames;
-  bool isolate;
   void (*body)(const Input&, unsigned, int);
+  int nvar(bool th) const { return th ? nvar_thorough : nvar_quick; }
+  const std::vector<Input>& table(bool th) const {
+    return inputs(th ? 2 : blocks4_in_quick ? 1 : 0);
+  }
 };
+// sort and find_if are built on for_each, whose per-call cost (~0.3 ms, and
+// far more on a busy machine) dominates the run time: quick gives find_if 3 of
+// its 5 predicates.
 static const Kernel KERNELS[] = {
-    {"sort", 3, V_SORT, false, body_sort},
-    {"partition", 2, V_PRED, true, body_partition},
-    {"count_if", 2, V_PRED, false, body_count_if},
-    {"find_if", 5, V_FIND, false, body_find_if},
-    {"accumulate", 3, V_ACC, false, body_accumulate},
-    {"map_reduce", 3, V_MR, false, body_map_reduce},
-    {"partial_sum", 2, V_PS, false, body_partial_sum},
+    {"sort", 3, 3, false, V_SORT, body_sort},
+    {"partition", 3, 4, true, V_PART, body_partition},
+    {"count_if", 2, 2, false, V_PRED, body_count_if},
+    {"find_if", 3, 5, false, V_FIND, body_find_if},
+    {"accumulate", 3, 3, false, V_ACC, body_accumulate},
+    {"map_reduce", 3, 3, false, V_MR, body_map_reduce},
+    {"partial_sum", 2, 2, false, V_PS, body_partial_sum},
 };
 
 // idx = (input * nvar + variant) * MAXT + (T-1): inputs simplest first, and
@@ -711,6 +834,24 @@ static Decoded decode(uint64_t idx, int nvar) {
   return d;
 }
 
+// The driver keeps the first 64 failing runs of a case and then one per key;
+// one flooding key (partition's out-of-range walk fails ~5000 runs) would push
+// every other key out.  Only the first 2 failing runs of each key (across all
+// workers) are therefore passed on; the others are still in C16_FAILLOG.
+static bool report_to_driver(const std::string& key) {
+  if (!g_tok)
+    return true;
+  uint64_t h = sx::hash_str(key) | 1;
+  for (int i = 0; i < 128; ++i) {
+    uint64_t cur = g_tok->key[i].load();
+    if (cur == 0 && g_tok->key[i].compare_exchange_strong(cur, h))
+      cur = h;
+    if (cur == h)
+      return g_tok->keycount[i].fetch_add(1) < 2;
+  }
+  return true;
+}
+
 // optional log of EVERY failing run (the driver keeps one per key):
 // C16_FAILLOG=<file>
 static void faillog(const std::string& cname, uint64_t idx,
@@ -727,8 +868,9 @@ static void faillog(const std::string& cname, uint64_t idx,
   close(fd);
 }
 
-static void guarded(const std::function<void()>& run) {
-  alarm(3 * HANG_SECONDS); // a livelock kills the worker: reported as :crash
+static void guarded(unsigned T, const std::function<void()>& run) {
+  TokenHold hold(T);
+  alarm(HANG_SECONDS); // a livelock kills the worker: reported as <case>:crash
   try {
     run();
   } catch (...) {
@@ -742,6 +884,7 @@ int main(int argc, char** argv) {
   // Galois pins thread i of EVERY process to cpu i; with 16 worker processes
   // using <= 4 threads each that would put all of them on cpus 0-3.
   setenv("GALOIS_DO_NOT_BIND_THREADS", "1", 0);
+  tokens_init(); // before the driver forks its workers
 
   std::vector<sx::EnumCase> en;
   for (const Kernel& k : KERNELS) {
@@ -750,29 +893,27 @@ int main(int argc, char** argv) {
     c.name = std::string("ParallelSTL::") + k.name +
              " x T=1..4 (all short sequences + all block combinations)";
     c.count = [kp](bool th) {
-      return (uint64_t)inputs(th).size() * kp->nvar * MAXT;
+      return (uint64_t)kp->table(th).size() * kp->nvar(th) * MAXT;
     };
     c.describe = [kp](uint64_t idx, bool th) {
-      Decoded d = decode(idx, kp->nvar);
+      Decoded d = decode(idx, kp->nvar(th));
       return "T=" + std::to_string(d.T) + " " + kp->varnames[d.var] + " " +
-             inputs(th)[d.input].str();
+             kp->table(th)[d.input].str();
     };
     std::string cname = c.name;
     auto describe     = c.describe;
     c.run = [kp, cname, describe](uint64_t idx, bool th) {
-      Decoded d       = decode(idx, kp->nvar);
-      const Input& in = inputs(th)[d.input];
+      Decoded d       = decode(idx, kp->nvar(th));
+      const Input& in = kp->table(th)[d.input];
       try {
-        if (kp->isolate)
-          isolated(kp->name, d.T, [&] { kp->body(in, d.T, d.var); });
-        else
-          guarded([&] { kp->body(in, d.T, d.var); });
+        guarded(d.T, [&] { kp->body(in, d.T, d.var); });
       } catch (const sx::Fail& f) {
         faillog(cname, idx, describe(idx, th), f);
-        throw;
+        if (report_to_driver(f.key))
+          throw;
       }
     };
-    c.weight = k.nvar;
+    c.weight = k.nvar_thorough;
     en.push_back(c);
   }
   {
@@ -790,7 +931,7 @@ int main(int argc, char** argv) {
     c.run = [cname, describe](uint64_t idx, bool th) {
       Decoded d = decode(idx, 2);
       try {
-        guarded([&] { body_destroy(DSIZES[d.input], d.T, d.var); });
+        guarded(d.T, [&] { body_destroy(DSIZES[d.input], d.T, d.var); });
       } catch (const sx::Fail& f) {
         faillog(cname, idx, describe(idx, th), f);
         throw;
